@@ -126,6 +126,8 @@ type Frame struct {
 	specEnvExtra map[string]Value
 	extraModel   []ModelVar
 	loopSeen     map[int]mapIter
+	escaped      map[*ssa.Alloc]bool
+	pcells       map[string]*ssa.Alloc
 	curLoop      int
 }
 
